@@ -589,12 +589,31 @@ func init() {
 		Run: func(out *rec.Out, idx int, rng *rec.Rng, tier string, stats map[string]int) {
 			runtime.GOMAXPROCS(2)
 			j := c13ejobs(tier)[idx]
-			c13ecase(out, j.d, j.ops, stats)
+			c13ecase(out, j.d, j.ops, j.hold, stats)
 		},
 		Shard: 1,
 		Par:   12,
 	}
 }
+
+// the token is held at task A in front of the catch event: clock operations before the `arrive` operation happen while
+// NOBODY listens at the catch event (a firing then must stay without effect on the token that arrives later)
+const c13procHoldXML = `<?xml version="1.0" encoding="UTF-8"?>
+<bpmn:definitions xmlns:bpmn="http://www.omg.org/spec/BPMN/20100524/MODEL" xmlns:xsi="http://www.w3.org/2001/XMLSchema-instance" id="defs" targetNamespace="http://bpmn.io/schema/bpmn">
+  <bpmn:process id="proc" isExecutable="true">
+    <bpmn:startEvent id="start"><bpmn:outgoing>f0</bpmn:outgoing></bpmn:startEvent>
+    <bpmn:sequenceFlow id="f0" sourceRef="start" targetRef="A" />
+    <bpmn:task id="A"><bpmn:incoming>f0</bpmn:incoming><bpmn:outgoing>f1</bpmn:outgoing></bpmn:task>
+    <bpmn:sequenceFlow id="f1" sourceRef="A" targetRef="ev" />
+    <bpmn:intermediateCatchEvent id="ev">
+      <bpmn:incoming>f1</bpmn:incoming>
+      <bpmn:outgoing>f2</bpmn:outgoing>
+      <bpmn:timerEventDefinition id="td"><bpmn:%s xsi:type="bpmn:tFormalExpression">%s</bpmn:%s></bpmn:timerEventDefinition>
+    </bpmn:intermediateCatchEvent>
+    <bpmn:endEvent id="end"><bpmn:incoming>f2</bpmn:incoming></bpmn:endEvent>
+    <bpmn:sequenceFlow id="f2" sourceRef="ev" targetRef="end" />
+  </bpmn:process>
+</bpmn:definitions>`
 
 const c13procXML = `<?xml version="1.0" encoding="UTF-8"?>
 <bpmn:definitions xmlns:bpmn="http://www.omg.org/spec/BPMN/20100524/MODEL" xmlns:xsi="http://www.w3.org/2001/XMLSchema-instance" id="defs" targetNamespace="http://bpmn.io/schema/bpmn">
@@ -650,12 +669,17 @@ func c13nodeID(n any) string {
 	return "?"
 }
 
-func c13ecase(out *rec.Out, d c13def, ops []c13op, stats map[string]int) {
+func c13ecase(out *rec.Out, d c13def, ops []c13op, hold int, stats map[string]int) {
 	out.Begin("c13e", "sync", "engine", d.kind, d.reps, c13opt(d.start), d.interval, c13opt(d.end), 0)
 	defer out.End()
 	tag := map[string]string{"date": "timeDate", "duration": "timeDuration", "cycle": "timeCycle"}[d.kind]
 	var defs schema.Definitions
-	if err := xml.Unmarshal([]byte(fmt.Sprintf(c13procXML, tag, d.iso(), tag)), &defs); err != nil {
+	src := c13procXML
+	if hold > 0 {
+		src = c13procHoldXML
+		stats["token_held_in_front_of_the_catch_event"]++
+	}
+	if err := xml.Unmarshal([]byte(fmt.Sprintf(src, tag, d.iso(), tag)), &defs); err != nil {
 		out.Line("error parse %s", strings.ReplaceAll(err.Error(), " ", "_"))
 		return
 	}
@@ -678,6 +702,7 @@ func c13ecase(out *rec.Out, d c13def, ops []c13op, stats map[string]int) {
 		return
 	}
 	conts := 0
+	var held bpmn.TaskTrace
 	emit := func(name string, arg int64) {
 		listen, observed, cont, done, errs := 0, 0, 0, 0, 0
 		deadline := time.Now().Add(5 * time.Second)
@@ -704,6 +729,8 @@ func c13ecase(out *rec.Out, d c13def, ops []c13op, stats map[string]int) {
 						}
 					case bpmn.ErrorTrace:
 						errs++
+					case bpmn.TaskTrace:
+						held = t
 					}
 				default:
 					break drain
@@ -730,7 +757,15 @@ func c13ecase(out *rec.Out, d c13def, ops []c13op, stats map[string]int) {
 		}())
 	}
 	emit("new", 0)
-	for _, o := range ops {
+	for k, o := range ops {
+		if hold > 0 && k == hold {
+			if held == nil {
+				out.Line("error no-task-request")
+				return
+			}
+			held.Do()
+			emit("arrive", 0)
+		}
 		switch o.kind {
 		case "set":
 			clk.Set(c13tm(o.arg))
@@ -739,14 +774,19 @@ func c13ecase(out *rec.Out, d c13def, ops []c13op, stats map[string]int) {
 		}
 		emit(o.kind, o.arg)
 	}
+	if hold > 0 && hold >= len(ops) && held != nil {
+		held.Do()
+		emit("arrive", 0)
+	}
 	stats["cases"]++
 	stats["kind_"+d.kind]++
 	stats[fmt.Sprintf("continued_%d", conts)]++
 }
 
 type c13ejob struct {
-	d   c13def
-	ops []c13op
+	d    c13def
+	ops  []c13op
+	hold int // > 0: the token is held in front of the catch event until this many clock operations have been performed
 }
 
 // the engine-level cases of a tier, in a fixed order (case idx depends only on the tier)
@@ -783,7 +823,10 @@ func c13ejobs(tier string) []c13ejob {
 			for i, x := range seq {
 				ops[i] = c13op{"set", x}
 			}
-			jobs = append(jobs, c13ejob{d, ops})
+			jobs = append(jobs, c13ejob{d, ops, 0})
+			for h := 1; h <= len(ops); h++ {
+				jobs = append(jobs, c13ejob{d, ops, h})
+			}
 			if len(seq) == maxLen {
 				return
 			}
